@@ -467,9 +467,150 @@ def harness_cb_refuses(otype, argv):
     return False
 
 
-def ac_op(flags, defcb, doc, table):
-    """defcb: False/0 none, True/1 a default handler that never refuses, 2 one that refuses like the callback"""
-    return "ac %x %d %s %s" % (flags, int(defcb), hexs(doc), " ".join(o.word() for o in table))
+def ac_op(flags, defcb, doc, table, pathlen=None):
+    """defcb: False/0 none, True/1 a default handler that never refuses, 2 one that refuses like the callback;
+    pathlen: the harness opens the file under a path of exactly that many bytes (the error message starts
+    with the path)"""
+    head = "ac" if pathlen is None else "acp %d" % pathlen
+    return "%s %x %d %s %s" % (head, flags, int(defcb), hexs(doc), " ".join(o.word() for o in table))
+
+
+# ------------------------------------------------------------------ formatted-text lengths (DYNAMIC_VSPRINTF)
+# the error message of qaconf (`<path>:<line> <text>`) and the `section.key` names of qconfig are
+# formatted by a retry loop over growing blocks: every TOTAL length around the block sizes must work.
+
+FMT_SWEEPS = (range(1020, 1030), range(2044, 2054), range(4080, 4111), range(8180, 8201))
+
+
+def errmsg_cases(rng, sweeps=FMT_SWEEPS, full=True):
+    """-> [(kind, total, pathlen, flags, defcb, doc, table, errline)]: one offending document per error
+    kind and per total message length; the variable part of the message (an option / section name, the
+    line itself) or - for the fixed messages - the path is sized so that
+    len(path) + len(":<line> ") + len(text) == total. full=False: every kind only at the totals next to a
+    power of two, two kinds (rotating) at the others"""
+    out = []
+    turn = 0
+
+    def name(n, first=b"N"):
+        return first + bytes(rng.choices(b"abcdefghijklmnopqrstuvwxyz0123456789_", k=n - 1))
+
+    A = 2
+    for sw in sweeps:
+        for total in sw:
+            big = total > 4600
+            pathlen = 4090 if big else 300
+            room = total - pathlen - len(":1 ")            # length of the message text (offence on line 1)
+            # kind -> (fixed part of the text, builder(name) -> (flags, defcb, doc, table))
+            kinds = {
+                "unregistered": (len("Unregistered option ''."), lambda n: (0, 0, n + b" x\n", [Opt(b"Other", TAKEALL, False, 0, 0)])),
+                "not-closed": (len("<> section was not closed."), lambda n: (0, 0, b"<" + n + b">\n", [Opt(n, TAKEALL, False, A, 0)])),
+                "not-closed-unknown": (len("<> section was not closed."), lambda n: (QAC_IGNOREUNKNOWN, 0, b"<" + n + b" a>", [])),
+                "stray-close": (len("Trying to close <> section that wasn't opened."), lambda n: (0, 0, b"</" + n + b">\n", [Opt(n, TAKEALL, False, A, 0)])),
+                "wrong-section": (len("Option '' is in wrong section."), lambda n: (0, 0, n + b"\n", [Opt(n, TAKEALL, False, 0, A)])),
+                "takes": (len("'' option takes 2 arguments."), lambda n: (0, 0, n + b" 1\n", [Opt(n, 2, False, 0, 0)])),
+                "int": (len("1th argument of '' must be integer type."), lambda n: (0, 0, n + b" x", [Opt(n, 1 | A1_INT, False, 0, 0)])),
+                "float": (len("1th argument of '' must be floating point. type"), lambda n: (0, 0, n + b" 1.\n", [Opt(n, 1 | A1_FLOAT, False, 0, 0)])),
+                "bool": (len("2th argument of '' must be bool type."), lambda n: (0, 0, n + b" 1 maybe\n", [Opt(n, 2 | (A1_BOOL << 1), False, 0, 0)])),
+                "missing-bracket": (len("Missing closing bracket. - ''."), lambda n: (0, 0, b"<" + n[1:] + b"\n", [])),
+            }
+            near = any(abs(total - p2) <= 1 for p2 in (1024, 2048, 4096, 8192))
+            turn += 2
+            for ki, (kind, (fixed, build)) in enumerate(kinds.items()):
+                n = room - fixed
+                if n < 1 or n > 4080:
+                    continue
+                if not full and not near and (ki - turn) % len(kinds) not in (0, 1):
+                    continue
+                flags, defcb, doc, table = build(name(n))
+                out.append((kind, total, pathlen, flags, defcb, doc, table, 1))
+            if not big:
+                # fixed texts: the path makes the length
+                for kind, text, doc, table in (
+                        ("too-long", "Line is too long.", b"a " + b"x" * 4200 + b"\n", [Opt(b"a", TAKEALL, False, 0, 0)]),
+                        ("quote", "Quotation hasn't properly closed.", b"a 'x\n", [Opt(b"a", TAKEALL, False, 0, 0)]),
+                        ("refused", "callback refused", b"a !fail\n", [Opt(b"a", TAKEALL, True, 0, 0)])):
+                    pl = total - len(":1 ") - len(text)
+                    if 200 <= pl <= 4095 and (full or near or kind == ("too-long", "quote", "refused")[turn // 2 % 3]):
+                        out.append((kind, total, pl, 0, 0, doc, table, 1))
+    return out
+
+
+def name_length_docs(rng, sweeps=FMT_SWEEPS, extra=40):
+    """INI documents whose `section.key` name has every total length of the sweeps (and random others):
+    -> [(doc, expected entries)]"""
+    out = []
+    totals = [t for sw in sweeps for t in sw] + [rng.randrange(3, 9000) for _ in range(extra)]
+    for total in totals:
+        for slen in {1, (total - 1) // 2, total - 2, rng.randrange(1, total - 1)}:
+            klen = total - 1 - slen
+            if slen < 1 or klen < 1:
+                continue
+            sec = bytes(rng.choices(b"abcdefgXYZ019_-", k=slen))
+            key = bytes(rng.choices(b"abcdefgXYZ019_-", k=klen))
+            doc = b"[" + sec + b"]\n" + key + b"=v" + (b"\n" if rng.random() < 0.7 else b"")
+            out.append((doc, [(sec + b".", sec), (sec + b"." + key, b"v")]))
+    return out
+
+
+def stub_pattern(n):
+    return bytes(97 + i % 23 for i in range(n))
+
+
+CMD_SWEEPS = (range(1000, 1031), range(2040, 2057), range(4090, 4101), range(8190, 8195))
+MAX_VALUESIZE = 1024 * 1024
+
+
+def cmd_length_docs(big=(1048575, 1048576, 1048577, 2097152)):
+    """`${!R<n>}`: the stubbed command prints exactly n bytes (qsyscmd -> qfile_read's growing block):
+    -> [(doc, expected entries)]; a value beyond _MAX_VALUESIZE is not stored"""
+    out = []
+    for n in [x for sw in CMD_SWEEPS for x in sw] + list(big):
+        pat = stub_pattern(n)
+        ents = [(b"a", b"1")] + ([(b"k", pat)] if n <= MAX_VALUESIZE else []) + [(b"z", b"2")]
+        out.append((b"a=1\nk=${!R%d}\nz=2\n" % n, ents))
+    for n in (1023, 1024, 2047, 2048, 4095, 4096):
+        pat = stub_pattern(n)
+        out.append((b"k= ${!R%d} \nj=<${k}>\n" % n, [(b"k", pat), (b"j", b"<" + pat + b">")]))
+    return out
+
+
+def fread_ops(rng, lengths):
+    """qfile_read(fp, nbytes) on NUL-free streams of the given lengths, every kind of nbytes"""
+    ops = []
+    for n in lengths:
+        c = bytes(rng.choices(range(1, 256), k=n))
+        for nb in ["-", "0", "1", "2", "3", "1023", "1024", "1025", str(max(n - 1, 1)), str(n + 1), str(max(n, 1))]:
+            ops.append("fread %s %s" % (nb, hexs(c)))
+    return ops
+
+
+FREAD_SMALL = list(range(0, 5)) + list(range(1021, 1028))
+FREAD_LARGE = list(range(2045, 2052)) + list(range(4093, 4100)) + [8191, 8192, 8193, 16384, 100000]
+
+
+def fread_expected(op):
+    """what the documentation of qfile_read says for a NUL-free stream: all bytes (nbytes NULL or 0) or the
+    first nbytes, terminated; NULL for an empty stream"""
+    _, nb, c = op.split()
+    c = b"" if c == "-" else bytes.fromhex(c)
+    if not c:
+        return "null"
+    k = 0 if nb == "-" else int(nb)
+    t = c[:k] if k > 0 else c
+    return "ok %d %s 00" % (len(t), hexs(t))
+
+
+def line_count_cases(counts=(65534, 65535, 65536, 65537, 65538, 65539, 65540, 70001)):
+    """documents of n lines with the first offence on the LAST line (the message must name line n, not
+    n mod 2^16) and conforming documents of n directives (returned count n):
+    -> [(flags, doc, table, expected ret, expected errline)]"""
+    out = []
+    t = [Opt(b"a", TAKEALL, False, 0, 0)]
+    for n in counts:
+        out.append((0, b"\n" * (n - 1) + b"Nope", t, -1, n))
+        out.append((0, b"a\n" * (n - 1) + b"<a", t, -1, n))
+        out.append((0, b"a\n" * n, t, n, None))
+    return out
 
 
 def parse_ac_result(line):
@@ -643,6 +784,8 @@ def stub_cmd(cmd):
         return b""
     if cmd[:1] == b"E":
         return b""
+    if cmd[:1] == b"R" and cmd[1:].isdigit() and len(cmd) <= 9:
+        return stub_pattern(int(cmd[1:]))
     return (b" [" + cmd + b"] \n").strip(b" \t\r\n")
 
 
